@@ -41,6 +41,12 @@ class PyprojectWriter(DependencyWriter):
             tomlkit.dumps(original).split("\n"), tomlkit.dumps(pyproject).split("\n")
         )
 
+        if not diff:
+            # Nothing was added: every dependency is already present in the document,
+            # e.g. a poetry entry whose version (`*`, a table) the store could not parse.
+            logger.debug("No dependencies to add to pyproject.toml file.")
+            return None
+
         if not dry_run:
             with open(self.path, "w", encoding="utf-8") as f:
                 tomlkit.dump(pyproject, f)
